@@ -820,7 +820,7 @@ The what argument tells us what sort of state is expected (allowed values are de
             preVro =  vro[0    :i]
             postVro = vro[i + 1:]
 
-            if vroTag in ("path"):
+            if vroTag in ("path",):
                 continue
 
             elif recursionDepth > 0 and vroTag in ("keep",):
